@@ -537,7 +537,9 @@ class _FuncAnalysis:
                 self._write(base, expr,
                             f'implicit insert by reading defaultdict '
                             f'{txt(expr)[:50]}', kind='dd-insert')
-            elif origin == 'opaque':
+            elif origin == 'opaque' and any(
+                    lay == 0 and isinstance(root, int)
+                    for root, _d, lay, _f in base):
                 self.summary.undecided.append(
                     f'{self.func.key}: read of defaultdict {txt(expr)[:50]} '
                     f'with a key of unknown origin '
